@@ -294,7 +294,10 @@ class Statement(object):
             return
 
         if self.operand.value.is_address_expression():
-            self.code_pkg.additional = self.operand.value.calculate_address_offset(statements)
+            try:
+                self.code_pkg.additional = self.operand.value.calculate_address_offset(statements)
+            except (ValueTypeError, ZeroDivisionError) as error:
+                raise TranslationError(str(error), self)
 
         if self.operand.value.is_address():
             self.code_pkg.additional = statements[self.operand.value.int].code_pkg.address
@@ -309,7 +312,10 @@ class Statement(object):
 
         if self.code_pkg.additional_needs_resolution:
             if self.operand.is_indexed() and self.operand.left and self.operand.left.is_address_expression():
-                relative_address = self.operand.left.calculate_address_offset(statements).int
+                try:
+                    relative_address = self.operand.left.calculate_address_offset(statements).int
+                except (ValueTypeError, ZeroDivisionError) as error:
+                    raise TranslationError(str(error), self)
             else:
                 relative_address = statements[self.code_pkg.additional.int].code_pkg.address.int
 
